@@ -972,7 +972,8 @@ impl Hist {
         let id = r.pick(&ids);
         let p = w.pos(id).unwrap();
         match choice {
-            8..=29 => {
+            28 | 29 => format!("H upd {}", id),
+            8..=27 => {
                 let l = match r.below(6) {
                     0 => r.log_u128(40),
                     1 => r.log_u128(90),
@@ -1150,7 +1151,13 @@ impl Hist {
                 let auth = r.pick(&[0u8, 0, 0, 0, 0, 1, 2]);
                 format!("H xrew {} {} {} {} {} {} {} {}", kind, if r.chance(1, 2) { 1 } else { 2 }, idx, id, auth, value, fa, fb)
             }
-            49 => format!("H upd {}", id),
+            49 => {
+                // locking and what a locked position may still do
+                let follow = r.pick(&["none", "dec", "close", "reset", "repo", "inc", "cf", "xfer", "lock2"]);
+                let withliq: Vec<u32> = ids.iter().copied().filter(|i| w.pos(*i).map(|q| q.liquidity > 0).unwrap_or(false)).collect();
+                let id = if !withliq.is_empty() && r.chance(4, 5) { r.pick(&withliq) } else { id };
+                format!("H xlock {} {} {}", id, r.pick(&[0u8, 0, 0, 0, 0, 0, 1, 2]), follow)
+            }
             50..=52 => format!("H cfees {}", id),
             55..=57 => "H cproto".to_string(),
             58..=59 if wp.liquidity > 0 && (w.snap.is_none() || r.chance(1, 4)) => "H snap".to_string(),
@@ -1387,6 +1394,22 @@ impl Family for Hist {
                     ctx.tag("xsub");
                     // skipped experiments (control fails / no look-alike exists) are counted in the tags
                     (if o.line == "ACCEPTED" { "ACCEPTED" } else { "rejected" }).to_string() + " | " + &w.digest()
+                }
+                Err(_) => "err HarnessPanic | ".to_string() + &w.digest(),
+            };
+        }
+        if t[1] == "xlock" {
+            let o = std::panic::catch_unwind(std::panic::AssertUnwindSafe(|| w.x_lock(&t)));
+            return match o {
+                Ok(o) => {
+                    for v in o.viols {
+                        ctx.viol(v);
+                    }
+                    for tg in o.tags {
+                        ctx.tag(tg);
+                    }
+                    ctx.tag("xlock");
+                    o.line + " | " + &w.digest()
                 }
                 Err(_) => "err HarnessPanic | ".to_string() + &w.digest(),
             };
